@@ -5,4 +5,24 @@ META = {
   level_text="Exploration: tens of thousands (thorough: millions) of generated operation sequences over adversarial and random hashes and table sizes 16..2^14 (2^18 thorough); every step is checked against a per-hash lower-bound model, the exact-reset-time rule and the counter-by-counter halving rule. It samples the input space; it does not prove absence.",
   level_note="Trusted: the harness model (count since last reset, floor-halved at reset); fast-forward writes the exported Additions field instead of performing 10*len(Table) additions. Table sizes above 2^18 are not exercised.",
  ),
+ "C07": dict(
+  technique="property-based testing (rapid): generated insert/access/cost-update/remove/sample-injection sequences on the real TinyLfu with a structural invariant checker after every step and a watchdog for termination",
+  level_text="Exploration: generated policy step sequences (half of them on MaxSize 1..3) with costs 1..MaxSize, injected hit/miss samples that make the hill climber resize the window, and injected sketch frequencies; after every step each tracked entry is in exactly one region with the matching flag, region size/count equal the sum/number of entries, the total equals the policy total and is <= MaxSize after insert/cost change, window capacity >= 1, no capacity exceeds MaxSize, window+protected capacity is conserved, evicted entries are reported once and unlinked. The same checker runs after every step of the C02/C05/C11 harnesses.",
+  level_note="Trusted: the checker; the policy is driven white-box as TestTlfu_* drive it. Termination is a 20 s watchdog per case. Sampling only.",
+ ),
+ "C04": dict(
+  technique="property-based testing (rapid), model-based: (a) schedule/re-schedule/deschedule/advance sequences on the real TimerWheel against a deadline map with never-early and one-finest-tick lateness bounds; (b) the store driven by a pipeline-owning harness with a virtual clock, reclamation bound checked after every tick",
+  level_text="Exploration of deadlines on all five wheel levels, at level-span edges and slot boundaries up to two rotations ahead, with 1 s / irregular / multi-rotation advances (a), and of API-level histories with arbitrarily delayed events and ticks (b). Found and led to the repair of two timer-wheel defects (see known_findings.txt).",
+  level_note="Trusted: the reference deadline map; lateness bound = 2^30 ns after max(deadline, time the entry's last event was applied). The real one-second ticker goroutine is not used here (C03/C06 harnesses use it); time is the verif-tag virtual clock.",
+ ),
+ "C02": dict(
+  technique="property-based testing (rapid), stateful with an owned schedule: API calls leave events that the harness delivers to the real drainWrite/sinkWrite in any generated order, with ticks, read drains and a write placed inside the expiry window; invariants after every step and at quiescence",
+  level_text="Exploration of event arrival orders (update/delete before insert, eviction or tick between a delete and its event, write inside the expiry re-check window) for MaxSize 1..64, 1..6 in-flight clients, costs 1..MaxSize with cost changes. After every step: region lists well-formed and every resident entry outside the regions has an insert event pending (in-flight bound). At quiescence: resident cost <= MaxSize == EstimatedSize, every resident entry tracked exactly once with policy cost == entry cost, Len == residents; then a further cost-changing Set per key is accounted too.",
+  level_note="Trusted: the argument that with unboundedly many clients every permutation of pending events is a real schedule (DESIGN 2.4); background goroutines are replaced by the harness (hook H2), the 'receive up to 128 items' loop is not exercised here. Entry pool off, as the property states.",
+ ),
+ "C05": dict(
+  technique="property-based testing (rapid), stateful with an owned schedule and a listener log: notification conservation per entry incarnation (unique value per write, incarnations tracked by map-slot identity)",
+  level_text="Exploration with the same generator as C02, entry pool off and on. Every listener call must name a departed incarnation, carry the last value written to it and the true reason, at most once; every incarnation that leaves by eviction/expiry is notified in that step; at quiescence nothing is owed and stored == resident + notifications. One genuine defect found and repaired (lost REMOVED); one known finding with the entry pool on (listed, its trigger region is excluded by construction and counted).",
+  level_note="Trusted: same schedule-ownership argument as C02. With the pool on, cases that would deliver a queued event to an already recycled Entry object are excluded while finding C05-pool-stale-event is listed.",
+ ),
 }
